@@ -34,6 +34,7 @@ def statefulCase (suite : String) (hdr : List String) (body : List (List String)
   | "index" => some (IndexDrv.handle hdr body)
   | "filesrc" => some (FileDrv.handleFileSrc hdr body)
   | "faults" => some (FileDrv.handleFaults hdr body)
+  | "indexsrc" => some (FileDrv.handleIndexSrc hdr body)
   | "resolver" => some (FileDrv.handleResolver hdr body)
   | "stream" => some (StreamDrv.handle hdr body)
   | "shutdown" => some (ConcDrv.handleShutdown hdr body)
